@@ -3325,9 +3325,9 @@ fn evaluate_scalar_func(
                     .collect();
                 return Ok(Arc::new(result));
             }
-            // For integers, always finite
-            let num_rows = arr.len();
-            Ok(Arc::new(BooleanArray::from(vec![true; num_rows])))
+            // For integers, always finite (NULL stays NULL)
+            let values = arrow::buffer::BooleanBuffer::new_set(arr.len());
+            Ok(Arc::new(BooleanArray::new(values, arr.logical_nulls())))
         }
 
         ScalarFunction::IsNan => {
@@ -3341,9 +3341,9 @@ fn evaluate_scalar_func(
                     .collect();
                 return Ok(Arc::new(result));
             }
-            // For integers, never NaN
-            let num_rows = arr.len();
-            Ok(Arc::new(BooleanArray::from(vec![false; num_rows])))
+            // For integers, never NaN (NULL stays NULL)
+            let values = arrow::buffer::BooleanBuffer::new_unset(arr.len());
+            Ok(Arc::new(BooleanArray::new(values, arr.logical_nulls())))
         }
 
         ScalarFunction::IsInfinite => {
@@ -3357,9 +3357,9 @@ fn evaluate_scalar_func(
                     .collect();
                 return Ok(Arc::new(result));
             }
-            // For integers, never infinite
-            let num_rows = arr.len();
-            Ok(Arc::new(BooleanArray::from(vec![false; num_rows])))
+            // For integers, never infinite (NULL stays NULL)
+            let values = arrow::buffer::BooleanBuffer::new_unset(arr.len());
+            Ok(Arc::new(BooleanArray::new(values, arr.logical_nulls())))
         }
 
         // ========== NEW MATH FUNCTIONS - BASE CONVERSION ==========
